@@ -119,9 +119,12 @@ def r1(run, ctx):
                                   '%s changes the %s without the matching %s update: list, '
                                   'numwatchers, status and stats describe different sets of '
                                   'watchers' % (m.qualname, an, bn))
+        from sa.dataflow import reaching_defs
+        rdm = reaching_defs(ctx, m)
         for d in da + dr:
             k = _dict_key(d)
-            run.check('R1', k is not None and '.lower()' in norm_text(k), 'the index key is the '
+            lowered = k is not None and all('.lower()' in a.text() for a in rdm.expand(d, k))
+            run.check('R1', lowered, 'the index key is the '
                       'lower-cased name', m, d.ast, 'the name index is keyed by %s (not '
                       'lower-cased): lookups in another letter case miss the watcher'
                       % (norm_text(k) if k is not None else '?'))
@@ -164,21 +167,29 @@ def r3(run, ctx):
     for m in acls.methods.values():
         la, lr, da, dr = _ops(ctx, m)
         cfg = ctx.cfg(m)
+        from sa.dataflow import reaching_defs
+        rdm = reaching_defs(ctx, m)
+        tests = {id(t.ast): t for t in cfg.nodes if t.kind == 'test'}
         for d in da:
             n += 1
 
             def member(e):
                 if isinstance(e, ast.Compare) and isinstance(e.ops[0], (ast.In, ast.NotIn)) and \
-                        norm_text(e.comparators[0]) == 'self._watchers_names' and \
-                        '.lower()' in norm_text(e.left):
-                    return isinstance(e.ops[0], ast.In)
+                        norm_text(e.comparators[0]) == 'self._watchers_names':
+                    # the tested key, seen through temporaries
+                    holder = [t for t in cfg.nodes if t.kind == 'test' and
+                              any(x is e for x in ast.walk(t.ast))]
+                    alts = rdm.expand(holder[0], e.left) if holder else []
+                    if alts and all('.lower()' in a.text() for a in alts):
+                        return isinstance(e.ops[0], ast.In)
                 return None
             ok = guarded(cfg, d, member, False)
             run.check('R3', ok, '%s: the insertion is reached only when the lower-cased name is '
                       'not yet indexed' % m.qualname, m, d.ast,
                       '%s inserts into the name index without a case-insensitive uniqueness '
                       'test: a section/name differing only in letter case overwrites the index '
-                      'entry while the list keeps both watchers' % m.qualname)
+                      'entry while the list keeps both watchers' % m.qualname,
+                      construct='UNGUARDED-INDEX-INSERTION')
     run.count('R3', n, 2, 'insertions into _watchers_names')
 
 
